@@ -13,6 +13,7 @@ import (
 	"bytes"
 	"compress/gzip"
 	"encoding/hex"
+	"encoding/json"
 	"fmt"
 	"net/http"
 	"sort"
@@ -214,8 +215,8 @@ func richTraceMsg() *collectortrace.ExportTraceServiceRequest {
 		return s
 	}
 	return &collectortrace.ExportTraceServiceRequest{ResourceSpans: []*trace.ResourceSpans{{
-		Resource:   &resource.Resource{Attributes: []*common.KeyValue{kvs("service.name", anyStr("svc")), kvs("r", anyStr("1"))}},
-		SchemaUrl:  "https://example.test/schema",
+		Resource:  &resource.Resource{Attributes: []*common.KeyValue{kvs("service.name", anyStr("svc")), kvs("r", anyStr("1"))}},
+		SchemaUrl: "https://example.test/schema",
 		ScopeSpans: []*trace.ScopeSpans{{Scope: &common.InstrumentationScope{Name: "lib", Version: "1.0", Attributes: []*common.KeyValue{kvs("sc", anyStr("1"))}},
 			Spans: []*trace.Span{sp("span0001", "", "root"), sp("span0002", "span0001", "child")}}},
 	}}}
@@ -233,6 +234,21 @@ func richLogsMsg() *collectorlogs.ExportLogsServiceRequest {
 	}}}
 }
 
+// stableJSON returns the request body with insignificant white space removed when it is JSON. protojson.Marshal
+// deliberately varies its white space with the *binary* (detrand), so an OTLP/JSON seed would otherwise have a
+// different length - and the mutation blocks a different number of cases and different indexes - in every build
+// (unchanged tree vs. a patched one). Compacting makes the case list a function of the tier only.
+func stableJSON(r codec.Request) []byte {
+	if !strings.HasPrefix(r.Header["Content-Type"], "application/json") {
+		return r.Body
+	}
+	var b bytes.Buffer
+	if err := json.Compact(&b, r.Body); err != nil {
+		panic("C28: JSON seed is not valid JSON: " + err.Error())
+	}
+	return b.Bytes()
+}
+
 func buildSeeds(thorough bool) []seed {
 	tv := codec.Time(t0, codec.TS64)
 	tv32 := codec.Time(time.Unix(2000000000, 0).UTC(), codec.TS32)
@@ -243,7 +259,7 @@ func buildSeeds(thorough bool) []seed {
 
 	var out []seed
 	add := func(name string, r codec.Request) {
-		out = append(out, seed{Name: name, Method: r.Method, Path: r.Path, Header: r.Header, Body: r.Body})
+		out = append(out, seed{Name: name, Method: r.Method, Path: r.Path, Header: r.Header, Body: stableJSON(r)})
 	}
 	add("event-json", codec.SingleEvent(dataset, classicKey, codec.CTJSON, evJSON))
 	add("event-msgpack", codec.SingleEvent(dataset, classicKey, codec.CTMsgpack, evMP))
@@ -470,7 +486,7 @@ func genReqCases(thorough bool) *reqCases {
 		}
 		for _, ct := range []string{codec.CTProto, codec.CTJSON} {
 			q := codec.OTLPHTTP(path, classicKey, dataset, ct, v.msg)
-			r.structs = append(r.structs, seed{Name: v.name + "/http-" + ct, Method: q.Method, Path: q.Path, Header: q.Header, Body: q.Body})
+			r.structs = append(r.structs, seed{Name: v.name + "/http-" + ct, Method: q.Method, Path: q.Path, Header: q.Header, Body: stableJSON(q)})
 		}
 	}
 	for _, l := range listeners {
